@@ -238,6 +238,24 @@ func doParse(b []byte, rp *reply, viol func(site, what string)) {
 			viol("Tx.ReadFrom/result-depends-on-what-the-object-held-before-or-on-the-reader", fmt.Sprintf("reader kind %d: read %d bytes (stream parse %d); serialises to %s, expected %s", k, n, used, trunc(common.Hex(reusedTx[k].ExtendedBytes())), trunc(common.Hex(ext))))
 		}
 	}
+	// read from a *bytes.Buffer that the caller then reuses for the next message (a receive loop): the transaction read
+	// from it keeps what it read
+	{
+		buf := bytes.NewBuffer(append([]byte{}, b...))
+		tb := &bt.Tx{}
+		var e error
+		if p, msg := common.Safely(func() { _, e = tb.ReadFrom(buf) }); p {
+			viol("Tx.ReadFrom/panic", msg)
+		} else if (e == nil) != ok {
+			viol("Tx.ReadFrom/verdict-differs-on-a-used-object-or-reader", fmt.Sprintf("bytes.Buffer: err %v, NewTxFromStream err %v", e, err))
+		} else if ok {
+			buf.Reset()
+			buf.Write(bytes.Repeat([]byte{0xa1}, len(b)+64))
+			if !bytes.Equal(tb.ExtendedBytes(), ext) || !bytes.Equal(tb.Bytes(), std) {
+				viol("Tx.ReadFrom/transaction-shares-memory-with-the-reader", fmt.Sprintf("after the bytes.Buffer it was read from was reused the transaction serialises to %s, expected %s", trunc(common.Hex(tb.ExtendedBytes())), trunc(common.Hex(ext))))
+			}
+		}
+	}
 	// the source is consumed to exactly the end of the transaction: what follows is still there for the next reader
 	if ok {
 		for k, src := range map[int]*bytes.Reader{0: src0, 3: src3} {
